@@ -14,7 +14,7 @@
     changed no link anywhere. *)
 From Coq Require Import String Ascii List Bool ZArith.
 From Raven Require Import Base.GoStr Model.Store Model.Ops Model.Deliver Spec.UidSpec Spec.DeliverSpec
-  Proof.DeliverStore Proof.DeliverWorld Proof.DeliverHist Proof.DeliverFresh Proof.DeliverRefuted.
+  Proof.DeliverStore Proof.DeliverWorld Proof.DeliverHist Proof.DeliverFresh Proof.DeliverCfg Proof.DeliverRefuted.
 Import ListNotations.
 Local Open Scope Z_scope.
 
@@ -85,6 +85,36 @@ Theorem c01_holds_when_fresh : forall w folder rs p clk,
   WInv w -> WFresh w -> target_folder folder p <> [] -> spec_C01 w folder rs p clk.
 Proof. exact c01_holds_when_fresh_l. Qed.
 Print Assumptions c01_holds_when_fresh.
+
+(** ---- every configuration ---------------------------------------------------------
+    [handle_data c over_quota w rs p size clk]: handleDATA under configuration
+    [c] (default folder, max_size, quota_enabled); [over_quota] is the verdict of
+    CheckQuota per recipient (quota_limit against the usage in the databases);
+    [rs] are the recipients accepted at RCPT time (max_recipients, allowed_domains
+    and reject_unknown_user only decide membership in [rs]). *)
+
+(** after every history, under every configuration, whatever CheckQuota says:
+    over the size limit every recipient is refused (552) and nothing changes;
+    otherwise the property holds outside the one latent class *)
+Theorem c01_any_configuration : forall roles h c over_quota rs p size clk,
+  (c_max_size c <? size = true \/ classify (wrun h (w0 roles)) (c_folder c) rs p clk = None) ->
+  spec_C01_cfg c over_quota (wrun h (w0 roles)) rs p size clk.
+Proof. exact c01_any_configuration_hist_l. Qed.
+Print Assumptions c01_any_configuration.
+
+(** ... and without any exclusion on worlds with truthful UIDNEXT *)
+Theorem c01_any_configuration_fresh : forall c over_quota w rs p size clk,
+  WInv w -> WFresh w -> c_folder c <> [] -> spec_C01_cfg c over_quota w rs p size clk.
+Proof. exact c01_any_configuration_fresh_l. Qed.
+Print Assumptions c01_any_configuration_fresh.
+
+(** the verdict of the quota check influences neither the replies nor any
+    store (the code computes and logs it): whoever makes it count must make
+    the REPLY depend on it too *)
+Theorem c01_quota_verdict_irrelevant : forall c oq oq' w rs p size clk,
+  handle_data c oq w rs p size clk = handle_data c oq' w rs p size clk.
+Proof. exact quota_verdict_irrelevant. Qed.
+Print Assumptions c01_quota_verdict_irrelevant.
 
 (** acceptance is not withheld: when every store's UIDNEXT is above its UIDs
     (e.g. every store has a C03-clean history), a parsable message is accepted
